@@ -129,3 +129,6 @@ func (t *VerifTopic) DrainResponses() [][]uint16 {
 		}
 	}
 }
+
+// PendingSignal is the number of wake-up signals waiting for the Synchronize loop (0 or 1).
+func (t *VerifTopic) PendingSignal() int { return len(t.tpv.receivedMsg) }
